@@ -67,7 +67,7 @@ func c17SchedScenario(c c17SchedCase) *vsched.Scenario {
 			}
 			h := crhttp.NewHandler(a.cctx.ll, a.st, *cfg, nil)
 			initialised := func() bool { return len(a.Writes()) > 0 }
-			rs := ref.State{Name: "eth0", MAC: a.mac.String(), Forwarding: true, Routes: []string{"2001:db8:f000::/48"}}
+			rs := ref.State{Name: "eth0", MAC: a.macOf(0).String(), Forwarding: true, Routes: []string{"2001:db8:f000::/48"}}
 			rs.Addrs, _ = c17Addresser{}.AddressesByIndex(1)
 			wantPrefixes := func() []string {
 				rs.Clock = time.Since(c17Epoch)
